@@ -8,7 +8,7 @@ from .real_vm import RealVM
 
 def case_request(case, steps):
     return {'op': 'vm', 'nodes': case['nodes'], 'inputs': case['inputs'], 'stores': case['stores'],
-            'impure': case['impure'], 'steps': steps}
+            'impure': case['impure'], 'const_fns': case.get('const_fns', []), 'steps': steps}
 
 
 def log_key(log):
@@ -55,19 +55,19 @@ def run_case_real(case, steps):
     return RealVM(case).run(steps)
 
 
-def generate(seed, n, max_nodes=18, kinds=None, corpus=()):
+def generate(seed, n, max_nodes=18, kinds=None, corpus=(), unique_fns=False):
     rng = random.Random(seed)
     cases = [(c['case'], c['steps']) for c in corpus]
     for _ in range(n):
-        case = gen_graph(rng, max_nodes=max_nodes, kinds=kinds)
+        case = gen_graph(rng, max_nodes=max_nodes, kinds=kinds, unique_fns=unique_fns)
         steps = gen_steps(rng, case)
         cases.append((case, steps))
     return cases
 
 
-def run_suite(seed, n, max_nodes=18, kinds=None, corpus=()):
+def run_suite(seed, n, max_nodes=18, kinds=None, corpus=(), unique_fns=False):
     """Returns dict(cases=..., results=[(case, steps, real, model, diffs)], stats=...)."""
-    cases = generate(seed, n, max_nodes, kinds, corpus)
+    cases = generate(seed, n, max_nodes, kinds, corpus, unique_fns)
     reqs = [case_request(c, s) for c, s in cases]
     answers = driver.run_lines(reqs)
     out = []
